@@ -923,8 +923,15 @@ fn check_all<F: gix_object::Find + Copy>(
                 .all(|x| w.tips.contains(x) && hid & (1u128 << *x) != 0);
             let extra_are_hidden = got.iter().filter(|x| !want.contains(x)).all(|x| hid & (1u128 << *x) != 0);
             if first_parent && nothing_missing && extra_are_hidden && !extra_are_hidden_tips {
+                // residual class: only with a commit-graph, where hidden ancestry is explored lazily by generation and a
+                // commit can be queued before it is known to be hidden (git drops those when they are popped)
+                let sig = if state.starts_with("with commit-graph") {
+                    "topo-first-parent:hidden-ancestor-returned-with-commit-graph"
+                } else {
+                    "topo-first-parent:hidden-ancestry-followed-along-first-parents-only"
+                };
                 f.push(
-                    "topo-first-parent:hidden-ancestry-followed-along-first-parents-only",
+                    sig,
                     format!(
                         "commits that are ancestors of a hidden commit through a second parent are returned ({e}): got {} git {}; {}",
                         show_seq(&got),
